@@ -119,6 +119,13 @@ CLAIMED = {
             "Trusted: the int(text, base) grammar model (validated against CPython on every string up to length 3/4 over a critical alphabet), Numeral model of bin/oct/hex/str, single-bit mask arithmetic; "
             "ints are mathematical integers (Python semantics).",
             "DESIGN.md 4/C18"),
+    "C19": ("model_checking",
+            "astz3 (vf/kengine): the real code objects of the rounding family executed on exact rationals k/10^j (LIA) and on binary64 (z3 FP) where float scaling matters; z3 decides each path",
+            "ROUND/ROUNDUP/ROUNDDOWN/TRUNC against an independent nearest/toward-zero/away-from-zero decimal oracle for all |k|<=10^6 per (j, d); INT/MOD sign, range and reconstruction; "
+            "CEILING/FLOOR(.MATH/.PRECISE) adjacency and sign rules for a pool of significances; EVEN/ODD; TRUNC and ROUNDUP/ROUNDDOWN additionally on the actual double nearest k/10^j.",
+            "Bounds: j 0..3 (quick) / 0..6, d -2..2 (quick) / -6..6; Decimal/quantize, repr of decimal-born floats, builtin round, math.floor/ceil/copysign/fmod are models (validated on concrete rows); "
+            "INT/MOD/CEILING/FLOOR/EVEN/ODD in exact arithmetic (binary64 quotient artefacts outside the claim).",
+            "DESIGN.md 4/C19"),
 }
 
 NOT_YET = "check not built yet in this round (machinery under construction); see DESIGN.md section 4"
